@@ -60,6 +60,16 @@ def gen_instance(rng, ncust=None, kind=None, pos_cc=None, depot_self=None, max_t
     return {"nodes": order, "depot": "D", "arcs": arcs, "grid": grid, "pos_cc": pos_cc}
 
 
+def shift_instance(inst, t0):
+    """The same instance with the clock origin moved by t0 (every finite window bound and grid point + t0).  Admissibility
+    of a move is invariant under this translation, but a comparison with a RELATIVE tolerance is not."""
+    out = dict(inst)
+    out["nodes"] = [(nm, dem, lo + t0, hi if hi == INF else hi + t0) for (nm, dem, lo, hi) in inst["nodes"]]
+    out["grid"] = [t + t0 for t in inst["grid"]]
+    out["shift"] = t0
+    return out
+
+
 def gen_grid(rng, nodes, kind=None, max_t=8):
     if kind is None:
         kind = rng.choice(["ends", "ends", "random", "random", "sparse", "complete", "miss"])
